@@ -38,7 +38,8 @@ check('C02',
       'exhaustive enumeration of all shipped models and declared strings x property-based argument points '
       '(Hypothesis); differential oracle: direct Python evaluation of each declared string vs the generated '
       'function executed through the model call path; regeneration under a different PYTHONHASHSEED compared '
-      'function by function; injected staleness (altered declaration) must trigger regeneration',
+      'function by function; injected staleness (altered declaration) must trigger regeneration; the order of the generated '
+      'initialisation sequence vs the value dependencies of the declared initialisers (exhaustive over models)',
       'Differential testing against an independent evaluator over an exhaustively enumerated outer domain '
       '(97 models, ~2750 strings) and sampled argument points incl. piecewise break-points and complex services. '
       'Algebraic identities checked at many random points; not a proof.',
@@ -64,7 +65,8 @@ check('C18',
       'exhaustive enumeration of the 25 linear block classes x property-based parameter tuples and complex '
       'frequencies (Hypothesis): the exported equation strings (through a real owner Model) are evaluated by the '
       'independent evaluator at unit vectors, the Laplace-domain linear system is solved and y/u compared with the '
-      'documented transfer function; steady-state balance of declared initial values; limited variants inside limits',
+      'documented transfer function; steady-state balance of declared initial values; limited variants inside limits; block '
+      'arguments given as symbols or as equation strings',
       'Algebraic identity testing at random points (Schwartz-Zippel style) against transfer functions typed in '
       'from the documentation; every documented zero-time-constant bypass is a generated class.',
       'Trusted: the table of documented transfer functions in vf/props/c18.py, numpy linear solve, relative 1e-9. '
@@ -75,7 +77,8 @@ check('C20',
       'property-based testing (Hypothesis) over the enumerated catalogue of all configuration fields '
       '(System, routines, models) x supply channels (rc file, option string, both, dict): field-by-field comparison '
       'with a coercion/precedence reference model, defaults of all unassigned fields, use sites, save->load round trip, '
-      'rejection of invalid alternatives and malformed option strings; plus one exhaustive pass over every field',
+      'rejection of invalid alternatives and malformed option strings; a second system from the same file must not inherit '
+      'the first one\'s options; plus one exhaustive pass over every field',
       'Reference-model comparison over generated configurations; every field is exercised at least once per run '
       'through the file channel (all sections) and the option channel (System and routines).',
       'Trusted: the 3-line coercion oracle (int, then float, else str) and the precedence rule as documented.',
@@ -85,7 +88,8 @@ check('C19',
       'stateful property-based testing (Hypothesis RuleBasedStateMachine): generated histories of device additions '
       'across the models of multi-model groups with explicit/missing/colliding/auto-pattern idx and dangling '
       'references, interleaved find_idx queries, then setup(); invariants from the machine\'s own tables: idx '
-      'uniqueness, find_idx == list comprehension, BackRef multisets, find-or-add helpers, dangling references reported',
+      'uniqueness, find_idx == list comprehension, BackRef multisets, find-or-add helpers, dangling references (mandatory, and '
+      'optional ones that are given) reported',
       'Model-based testing: the reference model is the list of rows the machine added; every invariant is '
       'recomputed from it after each rule.',
       'Trusted: the machine\'s row tables. Covers 16 models of 9 groups (not every model of the library).',
@@ -188,7 +192,7 @@ check('C07',
       'property-based testing (Hypothesis): (a) generated single-machine-infinite-bus systems with line-switching '
       'schedules vs an independent swing-equation reference (scipy solve_ivp, own nodal solution), convergence under step '
       'halving for both integration methods; (b) stock cases kicked by a 5-20 ms line trip vs the matrix-exponential '
-      'response of an independently reduced linearisation',
+      'response of an independently reduced linearisation, and perturbed along drawn directions of the state space',
       'Differential testing against an independent high-accuracy reference and against the system\'s own linearisation.',
       'Trusted: vf/oracle/smib.py (no ANDES import), scipy integrators and expm; the Jacobians used for (b) are those '
       'checked by C03. (b) only judged for small kicks without limiter activity.',
@@ -205,7 +209,7 @@ check('C08',
 
 check('C16',
       'property-based testing (Hypothesis): generated call sequences on one Solver instance per back-end (pattern/value '
-      'changes, singular matrices, refresh flags, clear) run in a journalled child process vs dense numpy residuals; stock '
+      'changes, tiny non-zero diagonals that need pivoting, singular matrices, refresh flags, clear) run in a journalled child process vs dense numpy residuals; stock '
       'cases under drawn back-end configurations vs the klu reference (power flow, trajectory, eigenvalues); fresh-process '
       'repetition under different hash seeds must be bit-identical',
       'Stateful differential testing of the solver wrapper and metamorphic comparison across interchangeable back-ends.',
